@@ -3,6 +3,7 @@
    hash of this file's statements. *)
 From Coq Require Import String List NArith Bool.
 From CKB Require Import Codec.Molecule Codec.MoleculeProofs Codec.SchemaWf gen.Schema Codec.Compact Codec.CompactProofs Codec.UnclesVerify Codec.Rounds Codec.RoundsProofs.
+From CKB Require Codec.TxsVerify Codec.TxsVerifyProofs.
 Import ListNotations.
 
 (* ---- (a) decoding: total, and bounded by the input ------------------------ *)
@@ -201,6 +202,43 @@ Theorem c16_unsorted_request_refuted :
   run true ex_full ex_events true rs_empty = ([mkRS [1] [0]; mkRS [1] [0; 1]], FBlock ex_full).
 Proof. exact unsorted_request_refuted. Qed.
 
+(* ---- (e) BlockTransactionsVerifier: total, and Ok only for the asked slots ------- *)
+(* a peer chooses the indexes' block (its own compact block) and the reply; the pending compact
+   block may be another peer's: whatever arrives, the verifier answers with a status *)
+Theorem c16_txs_verify_never_panics : forall b idx recv,
+  TxsVerify.txs_verify true b idx recv <> TxsVerify.TPanic.
+Proof. exact TxsVerifyProofs.txs_verify_never_panics. Qed.
+
+Theorem c16_txs_verify_ok_iff : forall b idx recv,
+  TxsVerify.txs_verify true b idx recv = TxsVerify.TOk <-> TxsVerify.expected b idx = Some recv.
+Proof. exact TxsVerifyProofs.txs_verify_ok_iff. Qed.
+
+Theorem c16_txs_verify_ok_in_range : forall b idx recv,
+  TxsVerify.txs_verify true b idx recv = TxsVerify.TOk -> Forall (fun i => (i < N.of_nat (length b))%N) idx.
+Proof. exact TxsVerifyProofs.txs_verify_ok_in_range. Qed.
+
+Theorem c16_txs_verify_old_panics_iff : forall b idx recv,
+  TxsVerify.txs_verify false b idx recv = TxsVerify.TPanic <-> exists i, In i idx /\ (N.of_nat (length b) <= i)%N.
+Proof. exact TxsVerifyProofs.txs_verify_old_panics_iff. Qed.
+
+Theorem c16_txs_verify_fix_conservative : forall b idx recv,
+  TxsVerify.txs_verify false b idx recv <> TxsVerify.TPanic ->
+  TxsVerify.txs_verify true b idx recv = TxsVerify.txs_verify false b idx recv.
+Proof. exact TxsVerifyProofs.txs_verify_fix_conservative. Qed.
+
+Theorem c16_txs_verify_old_refuted :
+  TxsVerify.txs_verify false (TxsVerify.block_short_ids [0%N] []) [1%N] [7%N] = TxsVerify.TPanic /\
+  TxsVerify.txs_verify true (TxsVerify.block_short_ids [0%N] []) [1%N] [7%N] = TxsVerify.TUnmatched.
+Proof. exact TxsVerifyProofs.txs_verify_old_refuted. Qed.
+
+Theorem c16_block_short_ids_length : forall pre sids,
+  length (TxsVerify.block_short_ids pre sids) = length pre + length sids.
+Proof. exact TxsVerifyProofs.block_short_ids_length. Qed.
+
+Theorem c16_block_short_ids_somes_prefix : forall pre sids,
+  exists k, TxsVerifyProofs.somes (TxsVerify.block_short_ids pre sids) = firstn k sids.
+Proof. exact TxsVerifyProofs.block_short_ids_somes_prefix. Qed.
+
 Redirect "out/C16.c16_decode_total_and_bounded" Print Assumptions c16_decode_total_and_bounded.
 Redirect "out/C16.c16_accepted_offsets_in_range" Print Assumptions c16_accepted_offsets_in_range.
 Redirect "out/C16.c16_strict_accepts_only_canonical" Print Assumptions c16_strict_accepts_only_canonical.
@@ -222,3 +260,11 @@ Redirect "out/C16.c16_reconstruct_committed_uncles" Print Assumptions c16_recons
 Redirect "out/C16.c16_next_request_strictly_increasing" Print Assumptions c16_next_request_strictly_increasing.
 Redirect "out/C16.c16_rounds_never_other_uncles" Print Assumptions c16_rounds_never_other_uncles.
 Redirect "out/C16.c16_unsorted_request_refuted" Print Assumptions c16_unsorted_request_refuted.
+Redirect "out/C16.c16_txs_verify_never_panics" Print Assumptions c16_txs_verify_never_panics.
+Redirect "out/C16.c16_txs_verify_ok_iff" Print Assumptions c16_txs_verify_ok_iff.
+Redirect "out/C16.c16_txs_verify_ok_in_range" Print Assumptions c16_txs_verify_ok_in_range.
+Redirect "out/C16.c16_txs_verify_old_panics_iff" Print Assumptions c16_txs_verify_old_panics_iff.
+Redirect "out/C16.c16_txs_verify_fix_conservative" Print Assumptions c16_txs_verify_fix_conservative.
+Redirect "out/C16.c16_txs_verify_old_refuted" Print Assumptions c16_txs_verify_old_refuted.
+Redirect "out/C16.c16_block_short_ids_length" Print Assumptions c16_block_short_ids_length.
+Redirect "out/C16.c16_block_short_ids_somes_prefix" Print Assumptions c16_block_short_ids_somes_prefix.
